@@ -118,7 +118,7 @@ func runC18(c *Ctx) {
 	}
 	mkSpec := func(cfg Cfg, delta time.Duration) RespSpec {
 		n++
-		issue := time.Now().Add(-time.Duration(cfg.MaxIssueDelay) + delta).UnixNano() / ms * ms
+		issue := time.Now().Add(-time.Duration(cfg.MaxIssueDelay)+delta).UnixNano() / ms * ms
 		return RespSpec{Tag: "LogoutResponse", ID: fmt.Sprintf("lo-%d", n), IRT: sp("logout-req-1"), Issue: sp(fmtMS(issue)),
 			Dest: sp(cfg.SloURL), Issuer: sp(cfg.IdpEntity), Status: sp(statusSuccess)}
 	}
